@@ -136,6 +136,8 @@ type Exec struct {
 	heapSort   map[string]Sort
 	code       []*codeCtx
 	nInline    int
+	exitHook   func(outs []Val, suffix string)
+	exitsChecked bool
 	lastFrame  *frame
 	sizes      []*T
 	strKeys    []*T
